@@ -6,9 +6,12 @@ package v1
 
 // ---- no request can crash the server (property C18): zero-annotation no-panic obligations
 // (nil dereference, index, slice, type assertion) of the v1 handlers ----
+// Assumed (listed): the node's server list is not empty (it always contains the node itself).
+//@ immutable SemaDBHandlers.clusterNode set once in SetupV1Handlers
 //@ func (*SemaDBHandlers).HandleListCollections
 //@   property C18
 //@   safety nil -overflow
+//@   requires len(sdbh.clusterNode.Servers) >= 1
 //@   loop 1 invariant rangeindex >= -1 && rangeindex < len(collections) && len(colItems) == len(collections)
 
 //@ func (*SemaDBHandlers).HandleGetCollection
